@@ -1,4 +1,5 @@
 import WhatwgUrl.Impl.Api
+import WhatwgUrl.Generated.Facts
 /-
   C06 — reference resolution laws. This file: the three entry points funnel into one algorithm.
 -/
@@ -21,5 +22,26 @@ theorem C06_entrypoints_agree (cfg : Cfg) (I : Idna) (b r : Bytes) (hb : b ≠ [
 /-- the empty base string means "no base" -/
 theorem C06_empty_base (cfg : Cfg) (I : Idna) (r : Bytes) : parseRef cfg I [] r = parse cfg I r := by
   simp [parseRef]
+
+/-! ### facts regenerated from the Go source (T1) -/
+
+/-- what each state copies from the base, exactly as the standard prescribes (no-scheme with an opaque-path base: scheme, path,
+    query; relative: scheme, then username, password, host, port, path, query; relative slash: username, password, host,
+    port; file: host, path, query; file slash: host) — `decodedPort` is the Go-side cache that travels with the port.
+    A forgotten or an extra copy in the Go source changes the regenerated list. -/
+theorem C06_base_copies : Generated.baseCopies = [
+    ("StateNoScheme", ["url.scheme = base.scheme", "url.path = base.path", "url.query = base.query"]),
+    ("StateRelative", ["url.scheme = base.scheme", "url.username = base.username", "url.password = base.password", "url.host = base.host",
+                       "url.port = base.port", "url.decodedPort = base.decodedPort", "url.path = base.path", "url.query = base.query"]),
+    ("StateRelativeSlash", ["url.username = base.username", "url.password = base.password", "url.host = base.host", "url.port = base.port",
+                            "url.decodedPort = base.decodedPort"]),
+    ("StateFile", ["url.host = base.host", "url.path = base.path", "url.query = base.query"]),
+    ("StateFileSlash", ["url.host = base.host"])] := by decide
+
+/-- the three entry points funnel into one algorithm -/
+theorem C06_entry_point_callees : ∀ c ∈ Generated.callees,
+    (c.1 = "parser.Parse" → c.2 = ["p.BasicParser"]) ∧ (c.1 = "parser.ParseRef" → c.2 = ["p.Parse", "p.BasicParser"]) ∧
+    (c.1 = "Url.Parse" → c.2 = ["u.parser.BasicParser"]) ∧ (c.1 = "Parse" → c.2 = ["defaultParser.Parse"]) ∧
+    (c.1 = "ParseRef" → c.2 = ["defaultParser.ParseRef"]) := by decide
 
 end WhatwgUrl.Props.C06
